@@ -22,7 +22,24 @@ def gen_cases(seed, tier):
             lens += [b - 7, b - 4, b - 1, b, b + 1, b + 4, b + 7]
     else:
         lens += [63, 64, 65, 127, 128, 129]
-    return [('lh', n, rng.next() & 0xFFFFFFFF) for n in lens]
+    cases = [('lh', n, rng.next() & 0xFFFFFFFF, 0, 0) for n in lens]
+    # the order of calls in one process: short after long, descending, repeated lengths (nothing may survive a call)
+    short = [5, 6, 7, 4, 9, 12, 3, 8, 13, 1, 0, 15, 16, 17]
+    for i, n in enumerate(short):
+        cases.append(('lh', [40, 16, 24, 33][i % 4], rng.next() & 0xFFFFFFFF, 0, 0))
+        cases.append(('lh', n, rng.next() & 0xFFFFFFFF, 0, 0))
+    for n in range(20, -1, -1):
+        cases.append(('lh', n, rng.next() & 0xFFFFFFFF, 0, 0))
+    for i in range(30 if tier == 'quick' else 600):
+        cases.append(('lh', rng.below(42), rng.next() & 0xFFFFFFFF, 0, 0))
+    # structured contents (equal blocks, periodic data, all zero, all 2^64-1) and digests delivered into the input array
+    for pat in range(1, 8):
+        for n in ([5, 8, 9, 16, 17, 24, 32, 33, 40] if tier == 'quick' else list(range(0, 50)) + [64, 65, 96]):
+            cases.append(('lh', n, rng.next() & 0xFFFFFFFF, pat, 0))
+    for alias in (1, 2, 3):
+        for n in ([4, 5, 8, 9, 12, 13, 16, 17, 23, 24, 25, 40] if tier == 'quick' else list(range(0, 50))):
+            cases.append(('lh', n, rng.next() & 0xFFFFFFFF, (n + alias) % 4 if n % 3 == 0 else 0, alias))
+    return cases
 
 
 def run(tier, seed, replay=None):
@@ -42,7 +59,7 @@ def run(tier, seed, replay=None):
     for variant, exe in poslib.drivers():
         pc = poslib.dump_consts(wd, exe)
         cpath = os.path.join(wd, 'cases_%s.txt' % variant); tpath = os.path.join(wd, 'trace_%s.ndjson' % variant)
-        open(cpath, 'w').write('\n'.join('%s %d %d' % c for c in cases) + '\n')
+        open(cpath, 'w').write('\n'.join(' '.join(str(x) for x in c) for c in cases) + '\n')
         sh([exe, cpath, tpath], timeout=1800)
         # mark a sample of events for full permutation re-evaluation
         lines = [ln for ln in open(tpath).read().split('\n') if ln.strip()]
@@ -66,14 +83,14 @@ def run(tier, seed, replay=None):
                 key = '%s build: linear_hash len=%s -> crash %s %s (fault on the guard page = read/write outside the declared extent)' % (variant, t[1], rec['kind'], rec['code'])
                 case = cases[rec['ci'] - 1]
             else:
-                key = '%s build: linear_hash variant=%s len=%d' % (variant, rec['variant'], rec['len'])
+                key = '%s build: linear_hash variant=%s len=%d%s%s' % (variant, rec['variant'], rec['len'], ' contents-pattern=%d' % rec['pat'] if rec.get('pat') else '', ' digest-inside-input(mode %d)' % rec['alias'] if rec.get('alias') else '')
                 case = cases[rec['ci'] - 1]
-            cls = (rec.get('variant', 'crash'), case[1] % 8, case[1] <= 4)
+            cls = (rec.get('variant', 'crash'), case[1] % 8, case[1] <= 4, rec.get('pat', 0) > 0, rec.get('alias', 0))
             if cls in seen or len(ck.violations) >= 8:
                 continue
             seen.add(cls)
             def wc(path, cs):
-                open(path, 'w').write('\n'.join('%s %d %d' % x for x in cs) + '\n')
+                open(path, 'w').write('\n'.join(' '.join(str(y) for y in x) for x in cs) + '\n')
 
             def post(tp):
                 l2 = []
